@@ -66,6 +66,9 @@ var interpretablePrefixes = []string{
 	"(*sync.Map).CompareAndSwap",
 	"(reflect.Kind).String",
 	"(net/http.Header).", "net/http.CanonicalHeaderKey", "net/http.StatusText",
+	"(*github.com/golang-jwt/jwt/v4.SigningMethodRSA).Alg", "(*github.com/golang-jwt/jwt/v4.SigningMethodHMAC).Alg",
+	"(*github.com/golang-jwt/jwt/v4.RegisteredClaims).Verify", "(github.com/golang-jwt/jwt/v4.RegisteredClaims).Verify",
+	"github.com/golang-jwt/jwt/v4.verifyAud", "github.com/golang-jwt/jwt/v4.verifyIss",
 }
 
 func interpretable(name string) bool {
